@@ -79,7 +79,11 @@ def evaluate(case):
         kwargs["default_command"] = cmds[dflt]["name"]
     try:
         with contextlib.redirect_stderr(io.StringIO()):
-            ap = T.ArgParser(commands=[decl(cmds, i, case.get("spaced")) for i in range(len(cmds))], **kwargs)
+            decls = [decl(cmds, i, case.get("spaced")) for i in range(len(cmds))]
+            form = case.get("commands_as", "list")
+            if form != "list":
+                classes.add("commands_given_as_" + form)
+            ap = T.ArgParser(commands=(iter(decls) if form == "iterator" else tuple(decls) if form == "tuple" else decls), **kwargs)
     except BaseException as e:   # noqa
         return Outcome(nt, sorted(classes),
                        [("constructor_raises_%s" % type(e).__name__, f"{[decl(cmds, i, False)[0] for i in range(len(cmds))]}: {e}")],
@@ -92,6 +96,32 @@ def evaluate(case):
                 classes.add("argparser_level_option")
             else:
                 ap.get_cmd_parser(cmds[o["target"]]["name"]).add_argument(o["flag"], action="store_true", help=dest_help)
+        if case.get("clash") is not None:
+            # an option added to an ancestor shares one option string with a flag a descendant already owns. Refusing it
+            # (ArgumentError) is fine; if it is accepted, the new option is an option of that ancestor like any other
+            pairs = [(o, a) for o in case["opts"] if o["target"] >= 0 for a in sorted(anc[o["target"]]) if a != o["target"]]
+            if pairs:
+                o, a = pairs[case["clash"] % len(pairs)]
+                classes.add("clashing_option_added_to_an_ancestor")
+                try:
+                    ap.get_cmd_parser(cmds[a]["name"]).add_argument(o["flag"], "--clash-zz", action="store_true", dest="clash_zz")
+                    accepted = True
+                except Exception:   # noqa
+                    accepted = False
+                if accepted:
+                    for ci in [i for i, c in enumerate(cmds) if not c["internal"] and a in anc[i]]:
+                        try:
+                            with contextlib.redirect_stderr(io.StringIO()), contextlib.redirect_stdout(io.StringIO()):
+                                r_ = ap.parse_args([cmds[ci]["name"], "--clash-zz"])
+                            ok_ = getattr(r_, "clash_zz", None) is True
+                        except SystemExit:
+                            ok_ = False
+                        if not ok_:
+                            f.append(("inherited_option_rejected", f"'--clash-zz' was added to {cmds[a]['name']} without an error, but "
+                                      f"[{cmds[ci]['name']}, --clash-zz] is rejected"))
+                            break
+                # the rest of the check would judge a parser in an unspecified state
+                return Outcome(nt, sorted(classes), f[:6], key=key)
         if case.get("positional"):
             # a positional accepted by every command, so that vectors starting with a non-option word can be valid
             ap.add_argument("files", nargs="*", help="positional arguments")
@@ -204,7 +234,9 @@ def st_case(draw):
                                            "cmd1", "cmd2", "cmd4", "cmd6", "c1x", "c3x", "c5x", "c6x"]),
                           max_size=6, unique=True))
     return {"cmds": cmds, "default": dflt, "opts": list(opts), "spaced": draw(st.booleans()),
-            "positional": draw(st.booleans()), "words": words}
+            "positional": draw(st.booleans()), "words": words,
+            "commands_as": draw(st.sampled_from(["list", "list", "tuple", "iterator"])),
+            "clash": draw(st.sampled_from([None, None, None, None, 0, 1, 2]))}
 
 
 def regression_cases():
